@@ -146,20 +146,44 @@ def ckey(v):
 # =============================================================== path context (decision oracle)
 class PathCtx:
     """One execution = one path; decisions not determined by the path condition are taken from `prefix`, new ones are
-    taken in a default direction and the alternatives are pushed on `pending`."""
-    def __init__(self, prefix=(), timeout_ms=20000):
+    taken in a default direction and the alternatives are pushed on `pending`.
+    fresh=True: every query is decided by a fresh (non-incremental) solver -- much faster for wide bit-vectors."""
+    def __init__(self, prefix=(), timeout_ms=20000, fresh=False):
         self.prefix, self.taken, self.pending = list(prefix), [], []
-        self.solver = z3.Solver(); self.solver.set('timeout', timeout_ms)
+        self.timeout_ms = timeout_ms; self.fresh = fresh
+        self.asserts = []
+        self._solver = None
         self.nfresh = 0; self.queries = 0; self.choices = []
         self.assumptions = []
+    @property
+    def solver(self):
+        """incremental solver holding the path condition (created on demand)"""
+        if self._solver is None:
+            self._solver = z3.Solver(); self._solver.set('timeout', self.timeout_ms)
+            for a in self.asserts: self._solver.add(a)
+        return self._solver
+    def add(self, cond):
+        self.asserts.append(cond)
+        if self._solver is not None: self._solver.add(cond)
     def assume(self, cond):
-        self.assumptions.append(cond); self.solver.add(cond)
-    def fresh_bv(self, name, w):
-        self.nfresh += 1
-        return z3.BitVec(f'{name}', w)
+        self.assumptions.append(cond); self.add(cond)
+    def _check(self, extra):
+        """(result, model) of path condition & extra"""
+        self.queries += 1
+        if self.fresh:
+            s = z3.Solver(); s.set('timeout', self.timeout_ms)
+            for a in self.asserts: s.add(a)
+            for e in extra: s.add(e)
+            r = s.check()
+            return r, (s.model() if r == z3.sat else None)
+        s = self.solver
+        s.push()
+        for e in extra: s.add(e)
+        r = s.check(); m = s.model() if r == z3.sat else None
+        s.pop()
+        return r, m
     def _sat(self, cond):
-        self.solver.push(); self.solver.add(cond); self.queries += 1
-        r = self.solver.check(); self.solver.pop()
+        r, _ = self._check([cond])
         if r == z3.unknown: raise Unsupported('solver: unknown in branch feasibility')
         return r == z3.sat
     def ask(self, cond):
@@ -178,7 +202,7 @@ class PathCtx:
                 self.pending.append(self.taken + [False]); d = True
             else: d = t_ok
         self.taken.append(d)
-        self.solver.add(cond if d else z3.Not(cond))
+        self.add(cond if d else z3.Not(cond))
         return d
     def choose(self, n, tag=''):
         """nondeterministic concrete choice 0..n-1 (every alternative is explored)"""
@@ -195,17 +219,16 @@ class PathCtx:
     def valid(self, cond):
         """is `cond` implied by the path condition?  returns (True, None) or (False, model); unknown raises"""
         if isinstance(cond, bool): return (True, None) if cond else (False, self.model())
-        self.solver.push(); self.solver.add(z3.Not(cond)); self.queries += 1
-        r = self.solver.check()
-        m = self.solver.model() if r == z3.sat else None
-        self.solver.pop()
+        r, m = self._check([z3.Not(cond)])
         if r == z3.unknown: raise Unsupported('solver: unknown in obligation')
         return (r == z3.unsat, m)
+    def feasible(self):
+        r, _ = self._check([])
+        return r == z3.sat
     def model(self):
-        self.queries += 1
-        r = self.solver.check()
+        r, m = self._check([])
         if r != z3.sat: raise Infeasible()
-        return self.solver.model()
+        return m
 
 # =============================================================== character classes (ASCII exact + representatives)
 WS_ASCII = (9, 10, 11, 12, 13, 32)
